@@ -58,8 +58,10 @@ func e2eInbound(u *uni, r *hlib.Rng, n int) types.Transactions {
 	var in types.Transactions
 	for i := 0; i < n; i++ {
 		u.serial++
-		// plain value transfer from zone 1-0 to a fresh Quai account of this zone
-		tx := u.build(u.serial, 0x00, false, types.DefaultType, int64(1+r.Intn(1<<20)), 21000+uint64(r.Intn(3))*1000, nil, false, 0x10, false)
+		// coinbase reward of a block mined in zone 1-0 paid to a fresh Quai account of this zone (before
+		// TimeToStartTx blocks have a zero gas limit and only such zero-gas ETXs can be executed)
+		data := append([]byte{0}, r.Bytes(32)...)
+		tx := u.build(u.serial, 0x00, false, types.CoinbaseType, int64(1+r.Intn(1<<20)), 0, data, false, 0x10, false)
 		u.reg(tx)
 		in = append(in, tx)
 	}
@@ -109,7 +111,7 @@ func runE2E(d Desc, cw *hlib.CaseWriter, idBase int) {
 	var queue types.Transactions // pushed and still pending at the head
 	oldest := int64(0)
 	sizes := [][]int{{3, 0, 2}, {60, 0}, {49, 1}, {50}, {130, 0}, {101}, {1, 1, 1}, {7, 55}}
-	plan := sizes[int(d.Sub)%len(sizes)]
+	plan := sizes[int(d.Sub%uint64(len(sizes)))]
 	if d.Shape == "rand" {
 		plan = nil
 		for i := 0; i < 1+r.Intn(3); i++ {
